@@ -65,7 +65,7 @@ func openOpts(dir, vdir string, ro bool) badger.Options {
 	o.ValueLogFileSize = 1 << 20
 	o.NumCompactors = 0
 	o.MetricsEnabled = false
-	o.BlockCacheSize, o.IndexCacheSize = 1 << 20, 0
+	o.BlockCacheSize, o.IndexCacheSize = 1<<20, 0
 	o.CompactL0OnClose = false
 	return o
 }
